@@ -17,6 +17,7 @@ PROPS = {
     ),
     "C02": dict(
         prefixes=["c02_"],
+        heavy="c02_adapter|c02_history",
         level_text="Bounded model checking of the real BufBitReader (u8..u64 words) and BitReader code: one inductive step (read_bits / peek_bits+skip_bits_after_peek / read_unary / skip_bits / clone) from an arbitrary representation-valid reader state (any buffer fill 0..2W-1, any cursor, symbolic data) against the canonical bit layout, asserting value, exact advance, bit_pos and re-establishment of the invariant; a pass covers histories of any length for the listed instantiations within the stated argument bounds.",
         assumptions=[
             "read_bits: n <= 64; peek_bits: 1 <= n <= W (buffered) / <= 32 (unbuffered); skip_bits_after_peek(s): s <= last peek",
